@@ -299,6 +299,9 @@ func checkC06(c *Ctx) {
 		{[]string{"a = 1:11; s = a[2:9] + 5; t = a[2:9] + 6; println(a, s[7], t[7])"}, "[1,2,3,4,5,6,7,8,9,10] 5 6\n"},
 		{[]string{"m = {1:1,2:2,3:3,4:4,5:5,6:6}; r = rest(m); r[9] = 9; q = m[1:4]; q[0] = 0; println(m, len(r), len(q))"}, "{1:1,2:2,3:3,4:4,5:5,6:6} 6 4\n"},
 		{[]string{"m = {1:1,2:2,3:3,4:4,5:5}; n = m + {6:6}; m[6] = 0; println(n[6], m[6])"}, "6 0\n"},
+		{[]string{"a = {1:1,2:2,3:3,4:4,5:5,6:6}; b = a; c = a + {3:33, 9:9}; println(a[3], b[3], c[3])"}, "3 3 33\n"},
+		{[]string{"x = info; n = len(x.globals); zz1 = 1; zz2 = 2; y = info; println(len(x.globals) == n, len(y.globals) == n + 4)"}, "true true\n"},
+		{[]string{"f = func() {info}; x = f(); s = len(x.stack); g = func() {func() {info}()}; y = g(); println(len(x.stack) == s, len(y.stack) > s)"}, "true true\n"},
 	}
 	for _, p := range pinned {
 		obs, _ := runHistory(p.in, RunOpt{})
